@@ -105,6 +105,8 @@ pub enum Val {
     Struct(usize, Vec<Val>),
     Enum(usize, usize, Box<Val>),
     Array(Vec<Val>),
+    /// lazy reference semantics only: the result of arithmetic that had to abort (see `Interp::run_lazy`)
+    Poison,
 }
 pub fn max_of(bits: u16) -> BigUint {
     (BigUint::one() << bits as usize) - BigUint::one()
@@ -139,6 +141,15 @@ impl Val {
                 out.extend_from_slice(&(*tag as u64).to_be_bytes());
                 p.encode(out);
             }
+            Val::Poison => panic!("interpreter bug: poison value encoded"),
+        }
+    }
+    pub fn has_poison(&self) -> bool {
+        match self {
+            Val::Poison => true,
+            Val::Tuple(vs) | Val::Struct(_, vs) | Val::Array(vs) => vs.iter().any(|v| v.has_poison()),
+            Val::Enum(_, _, p) => p.has_poison(),
+            _ => false,
         }
     }
     pub fn encoded(&self) -> Vec<u8> {
@@ -310,6 +321,7 @@ fn lit_str(v: &Val) -> String {
             }
         }
         Val::Array(vs) => format!("[{}]", vs.iter().map(lit_str).collect::<Vec<_>>().join(", ")),
+        Val::Poison => panic!("interpreter bug: poison literal"),
     }
 }
 pub struct EmitOpts {
@@ -639,6 +651,8 @@ enum Flow {
 }
 pub struct RefOutcome {
     pub result: Result<Val, Abort>,
+    /// lazy mode: how many arithmetic operations would have aborted in the eager semantics
+    pub poisoned_ops: u64,
     pub logs: Vec<Vec<u8>>,
     pub op_kinds: std::collections::BTreeSet<&'static str>,
     pub steps: u64,
@@ -648,6 +662,10 @@ pub struct Interp<'p> {
     logs: Vec<Vec<u8>>,
     kinds: std::collections::BTreeSet<&'static str>,
     steps: u64,
+    /// lazy mode: aborting arithmetic yields `Val::Poison` and the abort happens only when the poison is observed
+    lazy: bool,
+    /// lazy mode: number of arithmetic operations that would have aborted in the eager semantics
+    pub poisoned_ops: u64,
 }
 type Env = Vec<(String, Val)>;
 const STEP_LIMIT: u64 = 2_000_000;
@@ -661,16 +679,31 @@ fn lookup_mut<'e>(env: &'e mut Env, n: &str) -> &'e mut Val {
 
 impl<'p> Interp<'p> {
     pub fn run(p: &'p Program, args: &[Val]) -> RefOutcome {
-        let mut it = Interp { p, logs: vec![], kinds: Default::default(), steps: 0 };
+        Self::run_mode(p, args, false)
+    }
+    /// The same semantics, except that arithmetic which must abort (overflow, underflow, division by zero) produces a
+    /// poison value instead, poison propagates through every operation and aggregate, and the abort (class Arith) happens
+    /// when poison is *observed*: as a condition, match scrutinee, divisor, logged value, require value or main's result.
+    /// If the eager run aborts in arithmetic and the lazy run gets further, every aborting operation passed on the way was
+    /// dead (its result never reached anything observable).
+    pub fn run_lazy(p: &'p Program, args: &[Val]) -> RefOutcome {
+        Self::run_mode(p, args, true)
+    }
+    fn run_mode(p: &'p Program, args: &[Val], lazy: bool) -> RefOutcome {
+        let mut it = Interp { p, logs: vec![], kinds: Default::default(), steps: 0, lazy, poisoned_ops: 0 };
         let main = p.fns.len() - 1;
         let r = it.call(main, args.to_vec());
+        let r = match r {
+            Ok(v) | Err(Flow::Return(v)) if v.has_poison() => Err(Flow::Abort(Abort::Arith)),
+            r => r,
+        };
         let result = match r {
             Ok(v) => Ok(v),
             Err(Flow::Abort(a)) => Err(a),
             Err(Flow::Return(v)) => Ok(v),
             Err(_) => panic!("generator bug: break/continue escaped"),
         };
-        RefOutcome { result, logs: it.logs, op_kinds: it.kinds, steps: it.steps }
+        RefOutcome { result, poisoned_ops: it.poisoned_ops, logs: it.logs, op_kinds: it.kinds, steps: it.steps }
     }
     fn call(&mut self, f: usize, args: Vec<Val>) -> Result<Val, Flow> {
         let d = &self.p.fns[f];
@@ -703,6 +736,13 @@ impl<'p> Interp<'p> {
         env.truncate(mark);
         r
     }
+    /// a value that decides control flow or is otherwise observed: poison here means the abort is mandatory
+    fn observe(&mut self, v: Val) -> Result<Val, Flow> {
+        if v.has_poison() {
+            return Err(Flow::Abort(Abort::Arith));
+        }
+        Ok(v)
+    }
     fn tick(&mut self) -> Result<(), Flow> {
         self.steps += 1;
         if self.steps > STEP_LIMIT {
@@ -724,7 +764,8 @@ impl<'p> Interp<'p> {
                 let mut idxs = vec![];
                 for p in path {
                     if let PathEl::Index(e, n) = p {
-                        let i = self.expr(e, env)?.as_u64() % (*n as u64);
+                        let i = self.expr(e, env)?;
+                        let i = self.observe(i)?.as_u64() % (*n as u64);
                         idxs.push(i as usize);
                     }
                 }
@@ -755,7 +796,8 @@ impl<'p> Interp<'p> {
                             break;
                         }
                         if let Some(cond) = cond {
-                            if self.expr(cond, env)? != Val::Bool(true) {
+                            let c = self.expr(cond, env)?;
+                            if self.observe(c)? != Val::Bool(true) {
                                 break;
                             }
                         }
@@ -780,7 +822,8 @@ impl<'p> Interp<'p> {
             }
             Stmt::If { cond, then, els } => {
                 self.kinds.insert("if-stmt");
-                if self.expr(cond, env)? == Val::Bool(true) {
+                let c = self.expr(cond, env)?;
+                if self.observe(c)? == Val::Bool(true) {
                     self.stmts(then, env)?;
                 } else {
                     self.stmts(els, env)?;
@@ -795,7 +838,8 @@ impl<'p> Interp<'p> {
             }
             Stmt::Assert(e) => {
                 self.kinds.insert("assert");
-                if self.expr(e, env)? != Val::Bool(true) {
+                let c = self.expr(e, env)?;
+                if self.observe(c)? != Val::Bool(true) {
                     return Err(Flow::Abort(Abort::Assert));
                 }
             }
@@ -804,7 +848,9 @@ impl<'p> Interp<'p> {
                 // require(cond, value): both arguments are evaluated before the call
                 let c = self.expr(c, env)?;
                 let v = self.expr(v, env)?;
+                let c = self.observe(c)?;
                 if c != Val::Bool(true) {
+                    let v = self.observe(v)?;
                     self.logs.push(v.encoded());
                     return Err(Flow::Abort(Abort::Require));
                 }
@@ -812,6 +858,7 @@ impl<'p> Interp<'p> {
             Stmt::Log(e) => {
                 self.kinds.insert("log");
                 let v = self.expr(e, env)?;
+                let v = self.observe(v)?;
                 self.logs.push(v.encoded());
             }
         }
@@ -827,13 +874,15 @@ impl<'p> Interp<'p> {
                 match self.expr(x, env)? {
                     Val::Bool(b) => Val::Bool(!b),
                     Val::Int(bits, v) => Val::Int(bits, max_of(bits) ^ v),
+                    Val::Poison => Val::Poison,
                     _ => panic!("generator bug: not"),
                 }
             }
             Expr::Bin(op, _, a, b) => {
                 if *op == BinOp::LAnd || *op == BinOp::LOr {
                     self.kinds.insert("short-circuit");
-                    let l = self.expr(a, env)? == Val::Bool(true);
+                    let l = self.expr(a, env)?;
+                    let l = self.observe(l)? == Val::Bool(true);
                     if (*op == BinOp::LAnd && !l) || (*op == BinOp::LOr && l) {
                         return Ok(Val::Bool(l));
                     }
@@ -847,6 +896,7 @@ impl<'p> Interp<'p> {
                 self.kinds.insert("cast");
                 match self.expr(x, env)? {
                     Val::Int(_, v) => Val::Int(dst.bits().unwrap(), v),
+                    Val::Poison => Val::Poison,
                     _ => panic!("generator bug: cast"),
                 }
             }
@@ -895,7 +945,8 @@ impl<'p> Interp<'p> {
             Expr::Index(a, i, n) => {
                 self.kinds.insert("index");
                 let av = self.expr(a, env)?;
-                let iv = self.expr(i, env)?.as_u64() % (*n as u64);
+                let iv = self.expr(i, env)?;
+                let iv = self.observe(iv)?.as_u64() % (*n as u64);
                 match av {
                     Val::Array(vs) => vs[iv as usize].clone(),
                     _ => panic!("generator bug: index"),
@@ -903,7 +954,8 @@ impl<'p> Interp<'p> {
             }
             Expr::If(c, t, f) => {
                 self.kinds.insert("if-expr");
-                if self.expr(c, env)? == Val::Bool(true) {
+                let c = self.expr(c, env)?;
+                if self.observe(c)? == Val::Bool(true) {
                     self.block(t, env)?
                 } else {
                     self.block(f, env)?
@@ -911,7 +963,11 @@ impl<'p> Interp<'p> {
             }
             Expr::MatchEnum(x, _, arms) => {
                 self.kinds.insert("match-enum");
-                match self.expr(x, env)? {
+                let x = self.expr(x, env)?;
+                if x == Val::Poison {
+                    return Err(Flow::Abort(Abort::Arith));
+                }
+                match x {
                     Val::Enum(_, t, p) => {
                         let (binder, b) = &arms[t];
                         let mark = env.len();
@@ -928,6 +984,7 @@ impl<'p> Interp<'p> {
             Expr::MatchInt(x, _, arms, def) => {
                 self.kinds.insert("match-int");
                 let v = self.expr(x, env)?;
+                let v = self.observe(v)?;
                 let k = match &v {
                     Val::Int(_, b) => b.clone(),
                     _ => panic!("generator bug: match int"),
@@ -947,8 +1004,20 @@ impl<'p> Interp<'p> {
             Expr::Block(b) => self.block(b, env)?,
         })
     }
+    fn arith_abort(&mut self) -> Result<Val, Flow> {
+        if self.lazy {
+            self.poisoned_ops += 1;
+            Ok(Val::Poison)
+        } else {
+            Err(Flow::Abort(Abort::Arith))
+        }
+    }
     fn binop(&mut self, op: BinOp, l: Val, r: Val) -> Result<Val, Flow> {
-        let arith = Err(Flow::Abort(Abort::Arith));
+        if self.lazy {
+            if l.has_poison() || r.has_poison() {
+                return Ok(Val::Poison);
+            }
+        }
         Ok(match (op, &l, &r) {
             (BinOp::Eq, _, _) => {
                 self.kinds.insert("cmp");
@@ -966,14 +1035,14 @@ impl<'p> Interp<'p> {
                         self.kinds.insert("add");
                         let v = a + b;
                         if v > max {
-                            return arith;
+                            return self.arith_abort();
                         }
                         Val::Int(bits, v)
                     }
                     BinOp::Sub => {
                         self.kinds.insert("sub");
                         if b > a {
-                            return arith;
+                            return self.arith_abort();
                         }
                         Val::Int(bits, a - b)
                     }
@@ -981,21 +1050,21 @@ impl<'p> Interp<'p> {
                         self.kinds.insert("mul");
                         let v = a * b;
                         if v > max {
-                            return arith;
+                            return self.arith_abort();
                         }
                         Val::Int(bits, v)
                     }
                     BinOp::Div => {
                         self.kinds.insert("div");
                         if b.is_zero() {
-                            return arith;
+                            return self.arith_abort();
                         }
                         Val::Int(bits, a / b)
                     }
                     BinOp::Rem => {
                         self.kinds.insert("rem");
                         if b.is_zero() {
-                            return arith;
+                            return self.arith_abort();
                         }
                         Val::Int(bits, a % b)
                     }
